@@ -570,6 +570,29 @@ fn gen_prog(t: &mut Tape) -> Case {
         stdin.push(b'\n');
         return Case::Prog { src, stdin, origin: "long_say".into() };
     }
+    if t.chance(1, 16) {
+        // a runtime error whose message quotes a value that is awkward to print: the tool must print what the library says
+        let hostile = *t.choose(&[
+            "12\u{1b}[2J", "\u{9b}31m", "bell\u{7}", "back\u{8}space", "nul\0inside", "tab\there", "cr\rreturn", "\u{202e}rtl", "\u{feff}bom", "é\u{301}", "\u{fffd}", "‘q’ “dq”", "100%", "{}", "\\n", "a\u{85}b", "\u{2028}",
+        ]);
+        let via_input = t.chance(1, 2);
+        let get = if via_input { "listen to the value\n".to_string() } else { format!("put \"{}\" into the value\n", hostile) };
+        let fail = *t.choose(&[
+            "cast the value\n",
+            "knock the value down\n",
+            "turn up the value\n",
+            "say the value at 1 at 2\n",
+            "say the value is greater than 5\n",
+            "rock the list with the value, 2\njoin the list\n",
+            "cut 5 into pieces with the value\n",
+            "put 5 into the list at the list\nrock the list with the value\nlet the list at the list be 1\n",
+            "cast the value with 99\n",
+            "say the value taking 1\n",
+        ]);
+        let src = format!("say \"before\"\n{}{}say \"after\"\n", get, fail);
+        let stdin = if via_input { format!("{}\nrest\n", hostile).into_bytes() } else { vec![] };
+        return Case::Prog { src, stdin, origin: "error_quoting_an_awkward_value".into() };
+    }
     let which = t.weighted(&[24, 8, 8, 10, 5, 15, 10, 10, 5, 5]);
     let (src, stdin, origin): (String, Vec<u8>, &str) = match which {
         0 => {
